@@ -306,6 +306,30 @@ func (e *enc) trIdent(name string, env *Env) Val {
 	if v, ok := env.bound[name]; ok {
 		return v
 	}
+	// a parameter or local renamed since the contract was written (alpha-equivalent body, see rename.go)
+	if !e.noRename && e.fn != nil {
+		base, suffix := name, ""
+		if strings.HasSuffix(name, "$0") {
+			base, suffix = strings.TrimSuffix(name, "$0"), "$0"
+		}
+		if cands := e.v.renamesFor(e.fn)[base]; len(cands) > 0 {
+			_, direct := env.vars[name]
+			_, cell := env.vars["&"+name]
+			if !direct && !cell {
+				for _, nn := range cands {
+					_, d2 := env.vars[nn+suffix]
+					_, c2 := env.vars["&"+nn+suffix]
+					if d2 || c2 {
+						if e.renamedUsed == nil {
+							e.renamedUsed = map[string]string{}
+						}
+						e.renamedUsed[base] = nn
+						return e.trIdent(nn+suffix, env)
+					}
+				}
+			}
+		}
+	}
 	if v, ok := env.vars[name]; ok {
 		return v
 	}
